@@ -68,15 +68,17 @@ Theorem cp_ok_all : forall c, cp_ok c = true.
 Proof.
   intro c.
   destruct (N.lt_ge_cases c 0x110000) as [L|G].
-  - assert (Hi : c / 65536 < 17) by (apply N.div_lt_upper_bound; lia).
-    pose proof (N.div_mod c 65536 ltac:(lia)) as Hd.
-    pose proof (N.mod_lt c 65536 ltac:(lia)) as Hm.
-    assert (Hc : forall i, c / 65536 = i -> i * 65536 <= c < (i + 1) * 65536) by (intros i <-; lia).
-    remember (c / 65536) as i eqn:Ei.
+  - assert (Hex : exists i, i < 17 /\ i * 65536 <= c < (i + 1) * 65536).
+    { exists (c / 65536).
+      pose proof (N.div_mod c 65536 ltac:(lia)) as Hd.
+      pose proof (N.mod_lt c 65536 ltac:(lia)) as Hm.
+      generalize dependent (c / 65536). generalize dependent (c mod 65536). intros r Hr q Hq.
+      split; lia. }
+    destruct Hex as [i [Hi Hc]].
     assert (Hcases : i = 0 \/ i = 1 \/ i = 2 \/ i = 3 \/ i = 4 \/ i = 5 \/ i = 6 \/ i = 7 \/ i = 8 \/ i = 9 \/
                      i = 10 \/ i = 11 \/ i = 12 \/ i = 13 \/ i = 14 \/ i = 15 \/ i = 16) by lia.
-    specialize (Hc i eq_refl).
-    repeat (destruct Hcases as [->|Hcases]); try subst i;
+    clear Hi.
+    repeat (destruct Hcases as [Hcases|Hcases]); subst i;
       [ apply (plane_covers _ plane_00) | apply (plane_covers _ plane_01) | apply (plane_covers _ plane_02)
       | apply (plane_covers _ plane_03) | apply (plane_covers _ plane_04) | apply (plane_covers _ plane_05)
       | apply (plane_covers _ plane_06) | apply (plane_covers _ plane_07) | apply (plane_covers _ plane_08)
